@@ -1,7 +1,7 @@
 """Falsifiers for C04 and C05: the real ROS 2 analyses against the executable executor
 model on reservation supplies (vlib/ros_sim.py)."""
 import random
-from . import common, gen, ros_sim
+from . import common, gen, ros_sim, fals_analyses
 from .gen import wchoice
 from .fals_basic import real
 from .fals_models import gen_history
@@ -14,7 +14,7 @@ def gen_cb_arr(rng):
 
 
 def releases_for(a, horizon, rng, sync):
-    n = horizon // max(a[1], 1) + 3
+    n = (horizon // max(a[1], 1) + 3) if isinstance(a[1], int) and a[0] in ("spo", "per") else 60
     rel = sorted(gen_history(a, n, rng))
     if sync and rel:
         m = rel[0]
@@ -190,63 +190,65 @@ def falsify_C04(ctx):
             "counterexamples": cex, "samples": samples, "distribution": dist}
 
 
+def parse_ros_workload_op(op):
+    """(analysis, supply, callbacks) of an `rr` / `bw` operation line, in the form used by the
+    C05 falsifier (scalar costs; timers and polled callbacks with pairwise distinct known
+    priorities; unknown priorities get the remaining ranks); raises Unsupported otherwise"""
+    t = op.split()
+    which = t[0]
+
+    def p_sup(i):
+        if t[i] == "ded":
+            return ("ded",), i + 1
+        if t[i] == "psup":
+            return ("psup", int(t[i + 1]), int(t[i + 2])), i + 3
+        if t[i] == "csup":
+            return ("csup", int(t[i + 1]), int(t[i + 2]), int(t[i + 3])), i + 4
+        if t[i] == "dflt":
+            return p_sup(i + 1)
+        raise fals_analyses.Unsupported(t[i])
+    sup, i = p_sup(1)
+    m = int(t[i])
+    i += 1
+    cbs = []
+    for _ in range(m):
+        i += 1                                   # the assumed bound in the op is irrelevant here
+        a, i = fals_analyses.parse_arr(t, i)
+        if a[0] not in ("spo", "per"):
+            raise fals_analyses.Unsupported(a[0])
+        c, i = fals_analyses.parse_cost(t, i)
+        if c[1] < 1:
+            raise fals_analyses.Unsupported("zero cost")
+        tag = t[i]
+        i += 1
+        if tag == "P":
+            tag = f"P {t[i]}"
+            i += 1
+        elif tag not in ("T", "U"):
+            raise fals_analyses.Unsupported(tag)
+        cbs.append({"kind": "T" if tag == "T" else "P", "prio": None, "cost": c[1], "arr": a, "tag": tag})
+    known = [int(c["tag"].split()[1]) for c in cbs if c["tag"].startswith("P")]
+    if len(set(known)) != len(known) or not cbs:
+        raise fals_analyses.Unsupported("duplicate priorities")
+    nxt = max(known, default=-1) + 1
+    for k, c in enumerate(cbs):
+        if c["tag"].startswith("P"):
+            c["prio"] = int(c["tag"].split()[1])
+        elif c["kind"] == "P":
+            c["prio"] = nxt
+            nxt += 1
+    for k, c in enumerate([c for c in cbs if c["kind"] == "T"]):
+        c["prio"] = k
+    return which, sup, cbs
+
+
 def falsify_C05(ctx):
     rng = random.Random(ctx["seed"] * 7919 + 5)
     n = 200 if ctx["tier"] == "quick" else 8000
     cex, samples, nontrivial = [], [], set()
     dist = {"rr": 0, "bw": 0, "no_fixed_point": 0, "callbacks_checked": 0}
     horizon = 700
-    for it in range(n):
-        which = "rr" if rng.random() < 0.5 else "bw"
-        sup = gen_res_supply(rng)
-        cbs = []
-        fam = rng.random()
-        if fam < 0.2:
-            # backlog: one polled callback releases k+1 instances at once (jitter = k periods, k = 2..4) and
-            # needs k+1 polling points; another polled callback has a fresh instance for every window
-            if rng.random() < 0.7:
-                sup = ("ded",)
-            Tb = rng.randint(8, 16)
-            Cb = rng.randint(3, max(3, Tb // 2))
-            Ta = rng.randint(300, 1000)
-            k = rng.randint(2, 4)
-            # a window (one instance of each) is about as long as the short period, so that the short
-            # callback has a fresh instance at (almost) every polling point while the backlog drains
-            Ca = max(1, Tb - Cb + rng.randint(-2, 3))
-            cbs.append({"kind": "P", "prio": 0, "cost": Cb, "arr": ("per", Tb), "tag": ("P 0" if rng.random() < 0.5 else "U")})
-            cbs.append({"kind": "P", "prio": 1, "cost": Ca, "arr": ("spo", Ta, k * Ta), "tag": ("P 1" if rng.random() < 0.5 else "U")})
-            if rng.random() < 0.3:
-                cbs.append({"kind": "T", "prio": 0, "cost": 1, "arr": ("per", rng.randint(40, 90)), "tag": "T"})
-            if rng.random() < 0.5:
-                cbs.reverse()
-                for x in cbs:
-                    if x["kind"] == "P":
-                        x["prio"] = 1 - x["prio"]
-                        if x["tag"].startswith("P"):
-                            x["tag"] = f"P {x['prio']}"
-            dist["backlog"] = dist.get("backlog", 0) + 1
-        elif fam < 0.5:
-            # few callbacks, long callbacks, bursts of two or three instances (jitter close to / above
-            # the period), often a dedicated processor: the caps on polled interference are binding
-            if rng.random() < 0.5:
-                sup = ("ded",)
-            nt, npo = rng.randint(0, 1), rng.randint(2, 3)
-            for i in range(nt):
-                T = rng.randint(30, 120)
-                cbs.append({"kind": "T", "prio": i, "cost": rng.randint(1, 6), "arr": ("spo", T, rng.randint(0, T)), "tag": "T"})
-            for i in range(npo):
-                T = rng.randint(40, 200)
-                J = wchoice(rng, [(2, 0), (3, T - rng.randint(1, 4)), (2, rng.randint(T, 2 * T))])
-                cbs.append({"kind": "P", "prio": i, "cost": rng.randint(2, 10), "arr": ("spo", T, J),
-                            "tag": (f"P {i}" if rng.random() < 0.6 else "U")})
-            dist["bursty_small"] = dist.get("bursty_small", 0) + 1
-        else:
-            nt, npo = rng.randint(0, 2), rng.randint(1, 3)
-            for i in range(nt):
-                cbs.append({"kind": "T", "prio": i, "cost": rng.randint(1, 3), "arr": gen_cb_arr(rng), "tag": "T"})
-            for i in range(npo):
-                cbs.append({"kind": "P", "prio": i, "cost": rng.randint(1, 3), "arr": gen_cb_arr(rng),
-                            "tag": (f"P {i}" if rng.random() < 0.7 else "U")})
+    def examine(which, sup, cbs, force_reps=None):
         ss = gen.supply_str(sup)
         m = len(cbs)
         # iterate the singleton analyses upwards from the WCETs to a self-consistent bound vector
@@ -268,8 +270,8 @@ def falsify_C05(ctx):
         dist[which] += 1
         if not ok:
             dist["no_fixed_point"] += 1
-            continue
-        nreps = 6
+            return
+        nreps = force_reps or 6
         mres = model(ops)
         if any(a.startswith("ok ") and b.startswith("ok ") and int(b.split()[1]) > int(a.split()[1]) for a, b in zip(res, mres)):
             # the model's analysis returns a larger value on this (self-consistent) input: intensify
@@ -306,8 +308,100 @@ def falsify_C05(ctx):
         if len(samples) < 4:
             samples.append({"analysis": which, "supply": ss, "callbacks": [(c["tag"], c["cost"], gen.arr_str(c["arr"])) for c in cbs],
                             "self_consistent_bounds": rtb})
+
+    # when the correspondence of the rr / bw streams is broken, search harder: more workloads, most of
+    # them from the two families in which the caps on polled interference are binding, known priorities
+    broken = [d for d in ((ctx.get("corr") or {}).get("disagreements") or []) if d.get("op", "").split()[:1] in (["rr"], ["bw"])]
+    n_extra = 0
+    if broken:
+        n_extra = 900 if ctx["tier"] == "quick" else 4000
+        bw_broken = sum(1 for d in broken if d["op"].startswith("bw"))
+        dist["intensified_because_correspondence_broken"] = n_extra
+    for it in range(n + n_extra):
+        which = "rr" if rng.random() < 0.5 else "bw"
+        extra = it >= n
+        if extra:
+            which = "bw" if rng.random() < (0.2 + 0.6 * bw_broken / len(broken)) else "rr"
+        sup = gen_res_supply(rng)
+        cbs = []
+        fam = rng.random() * (0.6 if extra else 1.0)
+        pknown = 0.85 if extra else 0.5
+        if fam < 0.2:
+            # backlog: one polled callback releases k+1 instances at once (jitter = k periods, k = 2..4) and
+            # needs k+1 polling points; another polled callback has a fresh instance for every window
+            if rng.random() < 0.7:
+                sup = ("ded",)
+            Tb = rng.randint(8, 16)
+            Cb = rng.randint(3, max(3, Tb // 2))
+            Ta = rng.randint(300, 1000)
+            k = rng.randint(2, 4)
+            # a window (one instance of each) is about as long as the short period, so that the short
+            # callback has a fresh instance at (almost) every polling point while the backlog drains
+            Ca = max(1, Tb - Cb + rng.randint(-2, 3))
+            cbs.append({"kind": "P", "prio": 0, "cost": Cb, "arr": ("per", Tb), "tag": ("P 0" if rng.random() < pknown else "U")})
+            cbs.append({"kind": "P", "prio": 1, "cost": Ca, "arr": ("spo", Ta, k * Ta), "tag": ("P 1" if rng.random() < pknown else "U")})
+            if rng.random() < 0.3:
+                cbs.append({"kind": "T", "prio": 0, "cost": 1, "arr": ("per", rng.randint(40, 90)), "tag": "T"})
+            if rng.random() < 0.5:
+                cbs.reverse()
+                for x in cbs:
+                    if x["kind"] == "P":
+                        x["prio"] = 1 - x["prio"]
+                        if x["tag"].startswith("P"):
+                            x["tag"] = f"P {x['prio']}"
+            dist["backlog"] = dist.get("backlog", 0) + 1
+        elif fam < 0.5:
+            # few callbacks, long callbacks, bursts of two or three instances (jitter close to / above
+            # the period), often a dedicated processor: the caps on polled interference are binding
+            if rng.random() < 0.5:
+                sup = ("ded",)
+            nt, npo = rng.randint(0, 1), rng.randint(2, 3)
+            for i in range(nt):
+                T = rng.randint(30, 120)
+                cbs.append({"kind": "T", "prio": i, "cost": rng.randint(1, 6), "arr": ("spo", T, rng.randint(0, T)), "tag": "T"})
+            for i in range(npo):
+                T = rng.randint(40, 200)
+                J = wchoice(rng, [(2, 0), (3, T - rng.randint(1, 4)), (2, rng.randint(T, 2 * T))])
+                cbs.append({"kind": "P", "prio": i, "cost": rng.randint(2, 10), "arr": ("spo", T, J),
+                            "tag": (f"P {i}" if rng.random() < 0.6 else "U")})
+            dist["bursty_small"] = dist.get("bursty_small", 0) + 1
+        else:
+            nt, npo = rng.randint(0, 2), rng.randint(1, 3)
+            for i in range(nt):
+                cbs.append({"kind": "T", "prio": i, "cost": rng.randint(1, 3), "arr": gen_cb_arr(rng), "tag": "T"})
+            for i in range(npo):
+                cbs.append({"kind": "P", "prio": i, "cost": rng.randint(1, 3), "arr": gen_cb_arr(rng),
+                            "tag": (f"P {i}" if rng.random() < 0.7 else "U")})
+        examine(which, sup, cbs)
+    # correspondence-guided: workloads of the rr / bw operations on which model and code disagree, the real
+    # code claiming LESS than the model (proved safe): iterate the real singleton analyses on that
+    # workload to a self-consistent vector and look for an executor run that exceeds it
+    ng = 0
+    seen_wl = set()
+    for d in ((ctx.get("corr") or {}).get("disagreements") or []):
+        op, ri, rm = d.get("op", ""), d.get("impl", ""), d.get("model", "")
+        if op.split()[:1] not in (["rr"], ["bw"]) or not ri.startswith("ok "):
+            continue
+        if rm.startswith("ok ") and int(rm.split()[1]) <= int(ri.split()[1]):
+            continue
+        try:
+            which, sup, cbs = parse_ros_workload_op(op)
+        except (fals_analyses.Unsupported, ValueError, IndexError):
+            continue
+        key = (which, str(sup), str([(c["tag"], c["cost"], c["arr"]) for c in cbs]))
+        if key in seen_wl:
+            continue
+        seen_wl.add(key)
+        ng += 1
+        if ng > 25:
+            break
+        before = len(cex)
+        examine(which, sup, cbs, force_reps=120)
+        for c in cex[before:]:
+            c["found_by"] = "search guided by a correspondence disagreement (%s: impl %s, model %s)" % (op, ri, rm)
+    dist["correspondence_guided_searches"] = ng
     return {"cases": dist["rr"] + dist["bw"], "nontrivial": len(nontrivial),
-            "rule": "random executor workloads (timers, polled callbacks with known and unknown priority) on random reservations: the real rr / bw singleton analyses are iterated upwards from the WCETs until the assumed-bound vector reproduces itself; then dense admissible releases and random / late / adversarial budget placements are executed by the executor model (execution times at the WCET and, every third scenario, anywhere between 1 and the WCET) and every callback's observed response times are compared with its bound; non-trivial = distinct (workload with fixed point, scenario)",
+            "rule": "random executor workloads (timers, polled callbacks with known and unknown priority) on random reservations: the real rr / bw singleton analyses are iterated upwards from the WCETs until the assumed-bound vector reproduces itself; (when the correspondence of the rr / bw streams is broken: 900 further workloads, mostly from the families with binding caps and known priorities, plus the workloads of the disagreeing operations); then dense admissible releases and random / late / adversarial budget placements are executed by the executor model (execution times at the WCET and, every third scenario, anywhere between 1 and the WCET) and every callback's observed response times are compared with its bound; non-trivial = distinct (workload with fixed point, scenario)",
             "counterexamples": cex, "samples": samples, "distribution": dist}
 
 
